@@ -2,14 +2,15 @@
 C11 — every render call returns: no panic, no unbounded recursion.
 What the model carries: (i) include recursion is cut by an enforced limit read from the source; (ii) the path resolver cannot panic
 (Props/C17); (iii) the evaluator keeps the variable stack bounded (frameAt): depth is restored by every construct.
-Not carried by a theorem: panics inside the external libraries on arbitrary bytes, and "no crash outcome of the whole evaluator model"
-(that would need the same induction as frameAt over every helper) — both are decided by the isolated-process oracle sweep (partial).
+(iv) no evaluator function returns a crash outcome (SafeAt); (v) every evaluation TERMINATES (Lemmas/Terminates, TerminatesLeaf).
+Not carried by a theorem: panics inside the external libraries on arbitrary bytes — decided by the isolated-process oracle sweep (partial).
 -/
 import Vuego.Props.C17
 import Vuego.Lemmas.EvalInv
 import Vuego.Lemmas.NoCrashEval
 import Vuego.Lemmas.NoCrashExpr
 import Vuego.Lemmas.FuelMono
+import Vuego.Lemmas.TerminatesLeaf
 import Vuego.Generated.Parse
 namespace Vuego.Props.C11
 open Go Vuego
@@ -74,6 +75,46 @@ theorem evaluator_never_crashes_with_exprMini (files : List (Str × (Scope × Li
 theorem answer_independent_of_fuel (W : World) (f k : Nat) (file : Str) (dom : List Node) (stack : Stack) (r : R (List Node))
     (h : evaluatePage W f file dom stack = r) (hne : r ≠ .fuel) : evaluatePage W (f + k) file dom stack = r :=
   evalList_fuel_mono W f k _ _ _ r h hne
+
+/-! ### termination of the whole evaluator model
+
+`.fuel` is the model's own step bound. The theorems above hold for every fuel; the ones below say that the bound is never what ends an
+evaluation — recursion through includes, layouts' components, slots, loops and nested data is bounded for EVERY set of files (cycles of
+includes included), every template and every data value. The measure (Lemmas/Terminates) is lexicographic: how far the include chain may
+still grow (the limit read from the source), then ten times the size of the nodes at hand plus all slot content reachable from the
+context, plus an offset per evaluator function; an include shortens the first component or is the depth error, a `<slot>` moves to content
+already counted in the context, a loop instance has lost its `v-for`, everything else moves to a sub-list. The single hypothesis is that the
+expression evaluator PARAMETER returns (expr-lang is outside the model); every other leaf — the path resolver, the pipe interpreter,
+interpolation with its own scan bound, attribute and condition evaluation — is shown not to run out of steps (Lemmas/TerminatesLeaf). -/
+
+/-- EVERY PAGE EVALUATION TERMINATES: some fuel suffices, and with it or any larger one the answer is the same -/
+theorem evaluator_terminates (W : World) (hexpr : ∀ e env, W.P.exprEval e env ≠ .fuel) (file : Str) (dom : List Node) (stack : Stack) :
+    ∃ f r, r ≠ .fuel ∧ ∀ f' ≥ f, evaluatePage W f' file dom stack = r :=
+  evaluatePage_halts W hexpr file dom stack
+
+/-- … and what it terminates with is output or an ordinary error — never a crash outcome, never the step bound (total correctness of the
+    model's control: termination + `evaluator_never_crashes`) -/
+theorem evaluator_returns (W : World) (hcfg : W.P.cfg = Generated.reflectCfg) (hsafe : ∀ e env, Safe (W.P.exprEval e env))
+    (hexpr : ∀ e env, W.P.exprEval e env ≠ .fuel) (file : Str) (dom : List Node) (stack : Stack) :
+    ∃ f, (∃ out st, ∀ f' ≥ f, evaluatePage W f' file dom stack = .ok (out, st)) ∨ (∃ c m, ∀ f' ≥ f, evaluatePage W f' file dom stack = .err c m) := by
+  obtain ⟨f, r, hne, hr⟩ := evaluator_terminates W hexpr file dom stack
+  refine ⟨f, ?_⟩
+  have hc := evaluator_never_crashes W hcfg hsafe f file dom stack
+  have hf := hr f (Nat.le_refl _)
+  cases r with
+  | ok p => exact Or.inl ⟨p.1, p.2, hr⟩
+  | err c m => exact Or.inr ⟨c, m, hr⟩
+  | panic x => exact absurd hf (hc x).1
+  | hang x => exact absurd hf (hc x).2
+  | fuel => exact absurd rfl hne
+
+/-- non-vacuity: an evaluator parameter that rejects every expression satisfies the hypothesis, and so does any total function into
+    values and errors; a self-including file is a world the theorem covers (its evaluation ends in the depth error of
+    `include_beyond_limit_is_error` once the chain is longer than the limit) -/
+example : ∃ (W : World), (∀ e env, W.P.exprEval e env ≠ .fuel) ∧ W.files.lookup (S "p") = some ([], [.elem (S "template") [(S "include", S "p")] []]) :=
+  ⟨{ P := { exprEval := fun _ _ => .err "expr" [], cfg := Generated.reflectCfg },
+     files := [(S "p", ([], [.elem (S "template") [(S "include", S "p")] []]))], comps := [], jsonDecode := fun _ => none },
+   ⟨fun _ _ h => (by cases h), rfl⟩⟩
 
 /-- the same for the pieces a render is made of: interpolation, conditions, bound attributes, the pipe interpreter -/
 theorem pieces_never_crash (P : Params) (hcfg : P.cfg = Generated.reflectCfg) (hexpr : ∀ e env, Safe (P.exprEval e env)) (s : Stack) (e a : Str) :
